@@ -82,8 +82,29 @@ func (g *ogen) orderedMap(n, depth int, scalarOnly bool) *doc.Node {
 	if g.merges && len(g.anchors) > 0 && n > 0 && g.r.IntN(3) == 0 {
 		mergeAt = g.r.IntN(n + 1)
 	}
+	var overrideLater []doc.Pair
 	addMerge := func() {
 		src := g.anchors[g.r.IntN(len(g.anchors))]
+		// explicit overrides of merged keys, written AFTER the merge key and - where the key is an
+		// integer - in a different spelling (hex) than the merged one: the key keeps the merge position
+		for _, sp := range src.Map {
+			if sp.Merge || used[sp.Key] || g.r.IntN(3) != 0 {
+				continue
+			}
+			op := doc.Pair{Key: sp.Key, Val: doc.S("override-" + g.uid.Next())}
+			if sp.KeyNode != nil && sp.KeyNode.Kind == doc.KInt {
+				kn := doc.I(sp.KeyNode.Int)
+				if sp.KeyNode.IntForm == "" {
+					kn.IntForm = fmt.Sprintf("0x%x", kn.Int)
+				}
+				op.KeyNode = kn
+			} else if sp.KeyNode != nil {
+				op.KeyNode = sp.KeyNode.Clone()
+			}
+			used[sp.Key] = true
+			overrideLater = append(overrideLater, op)
+			g.d.Feat["merge:explicit-override-after-merge"]++
+		}
 		var v *doc.Node = src
 		if len(g.anchors) > 1 && g.r.IntN(3) == 0 {
 			v = doc.L(src, g.anchors[g.r.IntN(len(g.anchors))])
@@ -119,6 +140,7 @@ func (g *ogen) orderedMap(n, depth int, scalarOnly bool) *doc.Node {
 	if mergeAt == n {
 		addMerge()
 	}
+	m.Map = append(m.Map, overrideLater...)
 	return m
 }
 
